@@ -1,5 +1,6 @@
 import Lean.Data.Json
 import Gene.Engine
+import Gene.Conv
 import Gene.Spec.Admit
 import Gene.Spec.Scan
 /-! Line-protocol driver: one JSON object per input line, one JSON answer per line.
@@ -114,6 +115,19 @@ def jValue (j : Json) : E FieldValue := do
     match jOpt j "b" with
     | some b => do pure (.bool (← b.getBool?))
     | none => throw "bad field value"
+
+def hex16 (n : Nat) : String :=
+  let ds := (Nat.toDigits 16 n)
+  String.ofList (List.replicate (16 - ds.length) '0' ++ ds)
+
+def valueJson : FieldValue → Json
+  | .str s => Json.mkObj [("s", sJ s)]
+  | .num (.int v) => Json.mkObj [("i", Json.num v)]
+  | .num (.uint v) => Json.mkObj [("u", Json.num (Int.ofNat v))]
+  | .num (.float _) => Json.mkObj [("f", Json.null)]
+  | .bool b => Json.mkObj [("b", Json.bool b)]
+  | .some => Json.str "some"
+  | .none => Json.str "none"
 
 def jEvent (j : Json) : E Event := do
   let source ← jStr j "source"
@@ -230,10 +244,6 @@ partial def exprJson : Expr → Json
   | .nOfVars n p => Json.mkObj [("nv", Json.arr #[natStrJ n, sJ p])]
   | .neg e => Json.mkObj [("neg", exprJson e)]
   | .binop l o r => Json.mkObj [("bin", Json.arr #[exprJson l, bopJ o, exprJson r])]
-
-def hex16 (n : Nat) : String :=
-  let ds := (Nat.toDigits 16 n)
-  String.ofList (List.replicate (16 - ds.length) '0' ++ ds)
 
 /-- numbers: floats are reported by value class only when the bits are not available -/
 def numJson (fbits : Str → Option Nat) (src : Str) : Num → Json
@@ -531,6 +541,42 @@ def handle (j : Json) : E Json := do
           go rest c (o :: acc)
         | _ => throw "bad history op"
     let outs ← go ops {} []
+    pure (Json.mkObj [("model", Json.arr outs.toArray)])
+  | "conv" =>
+    let kind ← j.getObjValAs? String "kind"
+    let vs ← (← (← j.getObjVal? "vs").getArr?).toList.mapM jInt
+    let signed := kind.startsWith "i"
+    let outs := vs.map (fun v => valueJson (FieldValue.num (if signed then M.fromSigned v else M.fromUnsigned v.toNat)))
+    pure (Json.mkObj [("model", Json.arr outs.toArray)])
+  | "widen" =>
+    let bs ← (← (← j.getObjVal? "bits").getArr?).toList.mapM jNat
+    let outs := bs.map (fun b =>
+      let w := M.widenBits b
+      if F64.ofBits w == FVal.nan then Json.str "nan" else Json.str (hex16 w))
+    pure (Json.mkObj [("model", Json.arr outs.toArray)])
+  | "roundtrip" =>
+    let ns ← (← (← j.getObjVal? "ns").getArr?).toList.mapM jValue
+    let outs := ns.map (fun v => match v with
+      | .num n => match M.displayInt n with
+        | some t => Json.arr #[sJ t, match M.numParse (fun _ => none) t with
+            | some p => valueJson (.num p)
+            | none => Json.null]
+        | none => Json.str "float"
+      | _ => Json.str "bad")
+    pure (Json.mkObj [("model", Json.arr outs.toArray)])
+  | "hexparse" =>
+    let ts ← jStrList (← j.getObjVal? "ts")
+    let outs := ts.map (fun t => match M.numParse (fun _ => none) t with
+      | some p => valueJson (.num p)
+      | none => Json.null)
+    pure (Json.mkObj [("model", Json.arr outs.toArray)])
+  | "textconv" =>
+    let ss ← jStrList (← j.getObjVal? "ss")
+    -- text, `Cow`, `String`, paths: the identity; `Some(x)` is x, `None` is none (checked on the harness side)
+    pure (Json.mkObj [("model", Json.arr (ss.map (fun s => valueJson (M.fromOption (some (.str s))))).toArray)])
+  | "boolip" =>
+    let ips ← jStrList (← j.getObjVal? "ips")
+    let outs := [valueJson (.bool true), valueJson (.bool false)] ++ ips.map (fun s => valueJson (.str s))
     pure (Json.mkObj [("model", Json.arr outs.toArray)])
   | "load_text" =>
     -- whole-text inputs go through serde_yaml, which is not modelled: the model's answer is the
